@@ -49,7 +49,7 @@ ASSUMPTIONS = ['"new dict" is read as: type(result) is dict at every mapping lev
                'case mappings such as the Kelvin sign or long s) are DONT-CARE: either outcome accepted',
                'key order of the result, identity of key objects and identity of returned str values are '
                'not asserted; masks containing backslashes (regex templates) are not generated']
-INTERPRETER_FLAGS = [[], ['-O']]      # -bb not used here: the inputs mix str and bytes keys/subjects (DONT-CARE zone), where the pinned tree itself compares or str()s bytes
+INTERPRETER_FLAGS = [[], ['-O'], ['-X', 'dev'], []]      # -bb not used here: the inputs mix str and bytes keys/subjects (DONT-CARE zone), where the pinned tree itself compares or str()s bytes
 SHARDS = {'quick': 4, 'thorough': 16}
 MIN_DISTINCT = {'quick': 5000, 'thorough': 200000}
 
@@ -66,7 +66,7 @@ _MY_UPPER = [k.upper() for k in MY_KEYS]
 _EXTRA_SRC = None
 _EXTRA = []          # keys present in the repository list but not in MY_KEYS (DONT-CARE zone)
 
-MTYPES = ['dict', 'odict', 'ddict', 'proxy', 'proxyc', 'custom', 'chain', 'lazy', 'flaky', 'lru', 'readcount', 'genitems']
+MTYPES = ['dict', 'odict', 'ddict', 'proxy', 'proxyc', 'custom', 'chain', 'lazy', 'flaky', 'lru', 'readcount', 'genitems', 'reentrant']
 SECRETS = [None, '***', '???', '', 'XXXX', '<redacted>', '*', 'hidden', 'secret=1', 'päss✓',
            'password']
 
@@ -204,8 +204,31 @@ class Duck:
         return len(self._d)
 
 
+class ReentrantMapping(PairsMapping):
+    """A lazily loading section that, the first time it is walked, has a record about itself masked (a loader writing an
+    audit entry): while the outer mask_dict_password call is iterating it, its __iter__ calls mask_dict_password on
+    another dictionary that contains this very mapping.  Two calls in flight on one thread share nothing."""
+    __slots__ = ('_busy', '_hook', 'inner')
+
+    def __init__(self, pairs):
+        PairsMapping.__init__(self, pairs)
+        self._busy = False
+        self._hook = None
+        self.inner = []
+
+    def __iter__(self):
+        if self._hook is not None and not self._busy and len(self.inner) < 2:
+            self._busy = True
+            try:
+                self.inner.append(self._hook(self))
+            finally:
+                self._busy = False
+        return PairsMapping.__iter__(self)
+
+
 class Builder:
     def __init__(self):
+        self.reentrant = []
         self.env = {}
         self.inner = []     # containers hidden behind proxies; snapshot them too
         self.flaky = []     # mappings that can be armed to fail once
@@ -286,6 +309,10 @@ class Builder:
                 return f
             if m == 'genitems':
                 return GenItemsMapping(base.items())
+            if m == 'reentrant':
+                r = ReentrantMapping(base.items())
+                self.reentrant.append(r)
+                return r
             if m == 'lru':
                 return LRU(base)
             if m == 'readcount':
@@ -528,6 +555,13 @@ def _evaluate_nomodes(ctx, case):
             strutils.mask_dict_password(arg, secret=None)
         except BaseException:  # noqa
             ctx.clause('retry-after-a-failed-call-on-the-same-object')
+    def _audit(me):
+        try:
+            return repr(strutils.mask_dict_password({'section': 'database', 'values': me, 'password': 'pw-of-the-record'}))
+        except BaseException as e:  # noqa
+            return 'raised %s' % type(e).__name__
+    for r in b.reentrant:
+        r._hook = _audit
     try:
         if secret is None:
             got = strutils.mask_dict_password(arg)
@@ -538,6 +572,17 @@ def _evaluate_nomodes(ctx, case):
         exc = None
     except BaseException as e:  # noqa
         got, exc = None, e
+    for r in b.reentrant:
+        r._hook = None
+    for r in b.reentrant:
+        if r.inner:
+            # what the call made from inside returned is what the same call returns when made on its own
+            ctx.clause('reentrant-call-from-the-callers-mapping-answers-as-alone')
+            alone = _audit(r)
+            if any(x != alone for x in r.inner):
+                ctx.fail('reentrant-call-from-the-callers-mapping-answers-as-alone', case,
+                         {'made_from_inside_the_outer_call': r.inner[0][:300], 'made_alone': alone[:300]})
+                return
     mask = '***' if secret is None else secret
     custom = secret is not None and secret != '***'
 
